@@ -127,7 +127,25 @@ FlatWorld(id) ==
         Pn(4, "k64m.wav", 65535, 14, "wav", "wav", "")       \* 15 one byte short of it
       >>]
 
+\* a root that holds its own copy of every reserved asset name (and a sub-directory that holds the same names,
+\* where they are ordinary files)
+AssetWorld(id) ==
+    [id |-> id, root |-> 1, ascii |-> FALSE, nodes |-> <<
+        Dn(1, "top"),                                                  \* 1 root = top
+        Pn(1, "index.html", 41, 21, "html", "html", "index"),          \* 2
+        Pn(1, "style.css", 42, 22, "css", "css", ""),                  \* 3
+        Pn(1, "script.js", 43, 23, "js", "js", ""),                    \* 4
+        Pn(1, "favicon.svg", 44, 24, "svg", "svg", ""),                \* 5
+        Pn(1, "404.html", 45, 25, "html", "html", "404"),              \* 6
+        Dn(1, "sub"),                                                  \* 7
+        Pn(7, "style.css", 46, 26, "css", "css", ""),                  \* 8
+        Pn(7, "favicon.svg", 47, 27, "svg", "svg", ""),                \* 9
+        Pn(1, "zqzq.bin", 3, 1, "bin", "bin", ""),                     \* 10
+        Pn(7, "zqzq.bin", 3, 2, "bin", "bin", "")                      \* 11
+      >>]
+
 C02Worlds == { MixWorld(21, FALSE), MixWorld(22, TRUE), FlatWorld(23) }
+RouterWorlds == C02Worlds \cup {AssetWorld(24)}
 
 -----------------------------------------------------------------------------
 (* C03 world: one file per length class.                                    *)
@@ -138,7 +156,7 @@ RangeWorld ==
         <<Dn(1, "top")>> \o [i \in 1..Len(RangeLens) |-> Pn(1, RangeName(i), RangeLens[i], 10 + i, "bin", "bin", "")]
                         \o << Pn(1, "zqzq.bin", 3, 1, "bin", "bin", "") >> ]
 
-AllWorlds == C01Worlds \cup C02Worlds \cup {RangeWorld}
+AllWorlds == C01Worlds \cup RouterWorlds \cup {RangeWorld}
 WorldById(id) == CHOOSE W \in AllWorlds : W.id = id
 
 =============================================================================
